@@ -28,7 +28,8 @@ def enc_constraint(c):
     if t is C.EnumConstraint:
         return {"k": "ENUM", "a": [str(v) for v in c.allowed_values]}
     if t is C.ConstConstraint:
-        return {"k": "CONST", "s": str(c.const_value)}
+        v = c.const_value
+        return {"k": "CONST", "s": str(v), "py": "bool" if isinstance(v, bool) else ("none" if v is None else "other")}
     if t is C.TypeConstraint:
         if not isinstance(c.expected_type, str):
             raise ValueError("non-str expected_type")
